@@ -62,12 +62,6 @@ Definition ldef (d : option str) (ds : nsmap) : option str :=
 Definition lpush (dst : list (option str)) (ds : nsmap) : list (option str) :=
   match nm_get ds None with Some u => Some u :: dst | None => dst end.
 
-Lemma nm_set_append m p u : nm_get m p = None -> nm_set m p u = m ++ [(p, u)].
-Proof.
-  induction m as [|[p' u'] m IH]; cbn; [reflexivity|].
-  destruct (ostr_eqb p p'); [discriminate|]. intros H. rewrite (IH H). reflexivity.
-Qed.
-
 Lemma lsteps_starts ds : forall d dst acc stk root,
   NoDup (map fst (acc ++ ds)) -> Forall (fun x => decl_recordable x = true) ds ->
   lsteps (lst d dst acc stk root) (map (fun x : option str * str => SStartPrefix (fst x) (snd x)) ds)
@@ -277,6 +271,11 @@ Proof.
   intros Hm Hu. unfold add_namespace. destruct ou as [[|c u]|]; try exact Hm.
   destruct (prefix_exists (c :: u) m); [exact Hm|]. apply ldom_generate; assumption.
 Qed.
+Lemma ldom_add_namespace_attr m ou : ldom_map m -> ouri_lok ou = true -> ldom_map (add_namespace_attr ou m).
+Proof.
+  intros Hm Hu. unfold add_namespace_attr. destruct ou as [[|c u]|]; try exact Hm.
+  destruct (prefixed_exists (c :: u) m); [exact Hm|]. apply ldom_generate; assumption.
+Qed.
 Lemma ldom_load_prefix m u : ldom_map m -> l_uri_ok u = true -> ldom_map (snd (load_prefix u m)).
 Proof.
   intros Hm Hu. unfold load_prefix. destruct (find_prefix u m); [exact Hm|].
@@ -334,9 +333,9 @@ Lemma ldom_flush_map q (attrs : attrmap) m :
   ldom_map m -> Forall (fun a => l_qname_ok (fst a) = true) attrs -> ldom_map (flush_map q attrs m).
 Proof.
   intros Hm Ha. unfold flush_map.
-  assert (H3 : ldom_map (fold_left (fun m a => add_namespace (fst (fst a)) m) attrs m)).
+  assert (H3 : ldom_map (fold_left (fun m a => add_namespace_attr (fst (fst a)) m) attrs m)).
   { revert m Hm. induction Ha as [|a attrs Hq _ IH]; intros m Hm; [exact Hm|]. cbn [fold_left].
-    apply IH. apply ldom_add_namespace; [exact Hm|apply l_qname_ok_uri, Hq]. }
+    apply IH. apply ldom_add_namespace_attr; [exact Hm|apply l_qname_ok_uri, Hq]. }
   destruct (negb (truthy (fst q)) && nm_has_key _ None); [apply ldom_set; [exact H3|reflexivity]|exact H3].
 Qed.
 
